@@ -15,7 +15,11 @@
 (*   mode x "font object already used by an earlier subsetting document".                            *)
 EXTENDS Integers, Sequences, FiniteSets, TLC, Json, Randomization
 
-CONSTANTS Gen,      \* "subsetter" | "short" | "modes" | "random" | "trace"
+CONSTANTS Gen,      \* "subsetter" | "short" | "modes" | "random" | "wruns" | "trace"
+          \* measured by the driver from the source fonts (font 1 DejaVuSerif, 2 EB Garamond, 3 Dynalight): Eqf = code points of
+          \* one class of glyphs with a common advance (different from the .notdef advance), Dwf = code points whose glyph has
+          \* the .notdef advance (= DW of the embedded CIDFont).  Empty in all configurations but "wruns".
+          Eq1, Eq2, Eq3, Dw1, Dw2, Dw3,
           EmitAt,   \* subsetter histories are printed at this length
           NRand, StrLen
 
@@ -55,12 +59,15 @@ Stable == [][/\ Len(ids') >= Len(ids) /\ \A i \in 1..Len(ids) : ids'[i] = ids[i]
 (***************************************************************************************************)
 \* characters by index; 18 is a non-BMP character of the font (font 1: U+1D434, font 2: U+1F1E6)
 Chars == <<65, 86, 102, 105, 97, 32, 84, 111, 49, 50, 51, 52, 53, 54, 233, 255, 256, -1>>   \* A V f i a sp T o 1-6 e' y" A-
-Astral(font) == IF font = 1 THEN 119860 ELSE 127462
+Astral(font) == IF font = 1 THEN 119860 ELSE IF font = 2 THEN 127462 ELSE 241    \* Dynalight has no non-BMP character: n-tilde
 CP(font, i) == IF Chars[i] = -1 THEN Astral(font) ELSE Chars[i]
 CoreChars == 1..9 \ {8}          \* A V f i a space T 1 : kerning pair AV, ligature / alternates fi, repeated glyphs
 Modes == {"H", "VU", "VN"}       \* horizontal | vertical-rl upright (vertical glyph run) | vertical-rl natural (rotated run)
-Text(s, m) == [s |-> s, mode |-> m]
-Doc(f, sub, z, reuse, ts) == [font |-> f, subset |-> sub, compress |-> z, reuse |-> reuse, texts |-> ts]
+Text(s, m) == [s |-> s, mode |-> m, raw |-> FALSE]      \* s: indices into Chars
+RawText(cps, m) == [s |-> cps, mode |-> m, raw |-> TRUE]  \* s: code points
+\* variant: 0 FontNormal, 1 FontSubscript, 2 FontSuperscript (family.Face(size, colour, style, variant))
+DocV(f, sub, z, reuse, v, ts) == [font |-> f, subset |-> sub, compress |-> z, reuse |-> reuse, variant |-> v, texts |-> ts]
+Doc(f, sub, z, reuse, ts) == DocV(f, sub, z, reuse, 0, ts)
 NoDoc == Doc(0, FALSE, FALSE, 0, <<>>)
 Tail6 == <<1, 2, 3, 4, 6, 9>>    \* "AVfi 1": drawn as the second text of every short document (code stability across draws)
 Digits == <<9, 10, 11, 12, 13, 14, 9, 5, 15>>    \* "1234561a e'": six equal widths in a row => range form of W
@@ -69,18 +76,37 @@ ModeStrings == {<<1, 2, 3, 4>>, <<5, 9, 9>>, Tail6}
 \* U+00FF U+0100 as neighbours (a ToUnicode range over them would have to carry into the high byte); the non-BMP character
 \* (surrogate pair in ToUnicode); seven digits then letters (W range form followed by a list)
 EdgeStrings == {<<5, 16, 17, 5>>, <<17, 16>>, <<1, 18, 2>>, <<18, 18, 5>>, <<9, 10, 11, 12, 13, 14, 1, 2, 9>>}
+\* ---- W array scenarios: runs of k equal-advance characters next to a character with the DW advance ------------------
+RECURSIVE Sorted(_)
+Sorted(S) == IF S = {} THEN <<>> ELSE LET m == CHOOSE x \in S : \A y \in S : x <= y IN <<m>> \o Sorted(S \ {m})
+EqSeq(f) == Sorted(CASE f = 1 -> Eq1 [] f = 2 -> Eq2 [] f = 3 -> Eq3)
+DwSeq(f) == Sorted(CASE f = 1 -> Dw1 [] f = 2 -> Dw2 [] f = 3 -> Dw3)
+Window(q, o, k) == SubSeq(q, o, o + k - 1)
+Windows(q, ks) == UNION {{Window(q, 1, k), Window(q, Len(q) - k + 1, k)} : k \in {j \in ks : j <= Len(q)}}
+\* neighbours of a run: the DW-advance characters (at most two) and one ordinary letter
+Neighbours(f) == {DwSeq(f)[i] : i \in 1..(IF Len(DwSeq(f)) < 2 THEN Len(DwSeq(f)) ELSE 2)} \cup {65}
+WRunStrings(f) ==
+       UNION {{r \o <<d>>, <<d>> \o r, <<86>> \o r \o <<d, 84>>, <<d>> \o r \o <<d>>} : r \in Windows(EqSeq(f), 4..7), d \in Neighbours(f)}
+  \cup (IF Len(DwSeq(f)) >= 4 /\ Len(EqSeq(f)) >= 1      \* a run of DW-advance characters itself (its W entry may be omitted)
+        THEN UNION {{r \o <<EqSeq(f)[1]>>, <<EqSeq(f)[1]>> \o r \o <<65>>} : r \in Windows(DwSeq(f), 4..6)} ELSE {})
+VariantStrings == {Tail6, Digits, <<7, 8, 3, 8, 6, 5>>}
+
 Init ==
   /\ ids = NewSubsetter /\ hist = <<>>
   /\ CASE Gen = "short" ->  doc \in {Doc(f, sub, TRUE, 0, <<Text(s, "H"), Text(Tail6, "H")>>) : f \in 1..2, sub \in BOOLEAN, s \in ShortStrings}
        [] Gen = "modes" ->  doc \in    {Doc(f, sub, TRUE, r, <<Text(s, m1), Text(Digits, m2)>>) : f \in 1..2, sub \in BOOLEAN, r \in 0..1, s \in ModeStrings, m1 \in Modes, m2 \in Modes}
                                   \cup {Doc(f, sub, z, r, <<Text(Digits, "H")>>) : f \in 1..2, sub \in BOOLEAN, z \in BOOLEAN, r \in 0..1}
-                                  \cup {Doc(f, sub, TRUE, 0, <<Text(s, m)>>) : f \in 1..2, sub \in BOOLEAN, s \in EdgeStrings, m \in Modes}
-       [] Gen = "random" -> doc \in {Doc(f, sub, TRUE, r, <<Text(s, "H")>>) : f \in 1..2, sub \in BOOLEAN, r \in 0..1, s \in RandomSubset(NRand, [1..StrLen -> 1..18])}
+                                  \cup {Doc(f, sub, TRUE, 0, <<Text(s, m)>>) : f \in 1..3, sub \in BOOLEAN, s \in EdgeStrings, m \in Modes}
+                                  \cup {DocV(f, sub, TRUE, 0, v, <<Text(s, "H"), Text(Tail6, m)>>) : f \in 1..3, sub \in BOOLEAN, v \in 1..2, s \in VariantStrings, m \in {"H", "VN"}}
+       [] Gen = "wruns" ->  doc \in UNION {{Doc(f, sub, TRUE, 0, <<RawText(s, "H")>>) : sub \in BOOLEAN, s \in WRunStrings(f)} : f \in 1..3}
+       [] Gen = "random" -> doc \in {DocV(f, sub, TRUE, r, v, <<Text(s, "H")>>) : f \in 1..3, sub \in BOOLEAN, r \in 0..1, v \in {0}, s \in RandomSubset(NRand, [1..StrLen -> 1..18])}
+                                \cup {DocV(f, sub, TRUE, 0, v, <<Text(s, "H")>>) : f \in 1..3, sub \in BOOLEAN, v \in 1..2, s \in RandomSubset(NRand \div 4 + 1, [1..StrLen -> 1..18])}
                                 \cup {Doc(f, sub, FALSE, 0, <<Text(s, m)>>) : f \in 1..2, sub \in BOOLEAN, m \in {"VU", "VN"}, s \in RandomSubset(NRand \div 8 + 1, [1..StrLen -> 1..18])}
        [] OTHER -> doc = NoDoc
-Emitted == doc.font # 0 => PrintT("@@" \o ToJson([doc |-> doc, cps |-> [t \in 1..Len(doc.texts) |-> [i \in 1..Len(doc.texts[t].s) |-> CP(doc.font, doc.texts[t].s[i])]]]))
+TextCps(f, t) == IF t.raw THEN t.s ELSE [i \in 1..Len(t.s) |-> CP(f, t.s[i])]
+Emitted == doc.font # 0 => PrintT("@@" \o ToJson([doc |-> doc, cps |-> [t \in 1..Len(doc.texts) |-> TextCps(doc.font, doc.texts[t])]]))
 EmitInv == /\ (Gen = "subsetter" /\ Len(hist) = EmitAt) => PrintT("@@" \o ToJson([hist |-> hist, list |-> ids]))
-           /\ (Gen \in {"short", "modes", "random"}) => Emitted
+           /\ (Gen \in {"short", "modes", "random", "wruns"}) => Emitted
 Next == Gen \in {"subsetter", "mc"} /\ Len(hist) < EmitAt /\ \E g \in Gids : Get(g)
 Spec == Init /\ [][Next]_vars
 
@@ -88,9 +114,10 @@ Spec == Init /\ [][Next]_vars
 (* Part B: the embedded font and the shown codes                                                   *)
 (***************************************************************************************************)
 \* Records (built by harness/internal/props/c18 from oracle.ParsePDF + oracle/pdffont.go):
+\*  D (document): [kind ("ttf" | "cff"), subset, reuse, upm, hv, fonts, spans, unreadable]
 \*  F (one PDF font object): [enc, subtype, dw, w : <<[t |-> "list", c, ws] | [t |-> "range", c, c2, wd]>>, tuc : <<[c, u]>>, tur : <<[lo, hi, u]>>,
 \*      hasmap, map : <<gid>>, ng (glyphs in the embedded program; -1 unreadable), w1 (vertical displacement: DW2[2], default -1000)]
-\*  E (one shown glyph, in content stream order): [f (index of the font object), code, adj (TJ number after the glyph, 0 if none),
+\*  E (one shown glyph, in content stream order): [f (index of the font object), span (index of its span), code, adj (TJ number after the glyph, 0 if none),
 \*      g, xadv, yadv, vert, cluster : <<code points>>, rev (code point the source cmap gives for g, 0 if none), adv (source advance of g),
 \*      src, eid, emap : glyph signatures [n, h, adv, x0, y0, x1, y1] of the source glyph g and of the embedded glyphs number code / map[code]]
 Round1000(a, upm) == (2000 * a + upm) \div (2 * upm)        \* round(1000 a / upm), a >= 0
@@ -130,12 +157,12 @@ EmbGid(F, E) == IF UsesMap(F) THEN (IF E.code < Len(F.map) THEN F.map[E.code + 1
 EmbSig(F, E) == IF UsesMap(F) THEN E.emap ELSE E.eid
 
 \* scenario features that go into a signature: font kind, embedding, font object used before by a subsetting document
-Feat(D) == (IF D.font = 1 THEN "ttf" ELSE "cff") \o (IF D.subset THEN ":subset" ELSE ":full") \o (IF D.reuse > 0 THEN ":reused" ELSE "")
+Feat(D) == D.kind \o (IF D.subset THEN ":subset" ELSE ":full") \o (IF D.reuse > 0 THEN ":reused" ELSE "")
 \* In a document that uses one font horizontally and vertically (D.hv) every per-glyph deviation of codes, widths, characters
 \* and pen advances gets the one signature "hv-shared-font"; outline deviations too, unless the scenario has the features of the
 \* CFF embedding findings (full embedding, or a font object damaged by an earlier subsetting), which keep their own signature.
 Hv(D, sig) == IF D.hv THEN "hv-shared-font" ELSE sig
-CffFeature(D) == D.font = 2 /\ (~D.subset \/ D.reuse > 0)
+CffFeature(D) == D.kind = "cff" /\ (~D.subset \/ D.reuse > 0)
 \* deviation signatures of one shown glyph.  D: [font, subset, reuse, upm, hv], sub: state of the subsetter machine before the call
 GlyphDiag(D, F, E, sub) ==
        (IF E.code = GetCode(sub, E.g) THEN {} ELSE {Hv(D, "subsetter-code-unstable:" \o Feat(D))})
@@ -159,7 +186,17 @@ PenAdvance(D, F, E) == IF E.vert THEN Abs((F.w1 - E.adj) * D.upm - 1000 * E.yadv
                        ELSE Abs((WidthOf(F, E.code) - E.adj) * D.upm - 1000 * E.xadv) <= 2 * D.upm
 VerticalIdentityV(F, E) == E.vert <=> F.enc = "Identity-V"
 
-\* document level: CMap ranges well formed; span widths = sum of the laid-out advances
+\* document level: CMap ranges well formed; span widths = sum of the laid-out advances (in font units of the face's scale
+\* Size / unitsPerEm); the font size of the PDF text object is the face's size; and the PDF agrees with the layout on where
+\* the text ends: span width (micrometres) = (sum over the span's shown codes of W - TJ, in 1/1000 em) x Tf size.
+\* pen: per span the sum of (W - TJ) [(TJ - w1) for vertical glyphs] accumulated by Trace_FontEmbed over the GET events
+\* spans: <<[w, sum, um (span width in um), size (face size in um), tf (Tf operand in um), n (glyphs)]>>
+PenOf(F, E) == IF E.vert THEN E.adj - F.w1 ELSE WidthOf(F, E.code) - E.adj
+SpanAgreeDiag(D, pen) ==
+  UNION {    (IF Abs(D.spans[i].tf - D.spans[i].size) <= 1 THEN {} ELSE {"pdf-font-size-differs-from-face-size"})
+        \cup (IF Abs(1000 * D.spans[i].um - pen[i] * D.spans[i].tf) <= (2 * D.spans[i].n + 2) * D.spans[i].tf + Abs(pen[i]) THEN {}
+              ELSE {"pdf-advance-differs-from-span-width"})
+        : i \in 1..Len(D.spans)}
 DocDiag(D) ==
      UNION {IF RangesWellFormed(D.fonts[i]) THEN {} ELSE {"tounicode-range-crosses-byte"} : i \in 1..Len(D.fonts)}
   \cup UNION {IF D.spans[i].w = D.spans[i].sum THEN {} ELSE {"span-width-differs"} : i \in 1..Len(D.spans)}
@@ -168,14 +205,14 @@ DocDiag(D) ==
 (***************************************************************************************************)
 (* Part C: FontFace.ToPath / TextWidth                                                             *)
 (***************************************************************************************************)
-\* P: [font, reuse, err (ToPath returned an error), gl : <<[xadv, yadv, xoff, yoff, vert, n, x0, y0 (source glyph box), ox0, oy0 (observed box in the path)]>>, xoff0, yoff0,
+\* P: [kind, reuse, err (ToPath returned an error), gl : <<[xadv, yadv, xoff, yoff, vert, n, x0, y0 (source glyph box), ox0, oy0 (observed box in the path)]>>, xoff0, yoff0,
 \*     tw (TextWidth in font units), ret (advance returned by ToPath), split (the path could be split per glyph), grid]
 PathDiag(P) ==
   LET n == Len(P.gl)
       xa == [i \in 1..n |-> P.gl[i].xadv]
       ya == [i \in 1..n |-> P.gl[i].yadv]
       hor == [i \in 1..n |-> IF P.gl[i].vert THEN 0 - P.gl[i].yadv ELSE P.gl[i].xadv]
-      feat == (IF P.font = 1 THEN "ttf" ELSE "cff") \o (IF P.reuse > 0 THEN ":reused" ELSE "")
+      feat == P.kind \o (IF P.reuse > 0 THEN ":reused" ELSE "")
   IN   (IF ~P.err THEN {} ELSE {"topath-error:" \o feat})
   \cup (IF P.err \/ (P.grid /\ P.split) THEN {} ELSE {"topath-structure"})
   \cup (IF ~(P.grid /\ P.split) \/ \A i \in 1..n : P.gl[i].n = 0 \/
